@@ -67,7 +67,7 @@ def namespace(mode):
         ns['Implies'] = lambda a, b: z3.Implies(B(a), B(b))
         ns['If'] = lambda c, a, b: z3.If(B(c), a, b)
         ns['R'] = lambda x: z3.RealVal(x) if not z3.is_expr(x) else x
-        for fn in ('sqrt', 'sin', 'cos', 'tan', 'acos', 'asin', 'atan', 'exp', 'log', 'log2', 'exp2'):
+        for fn in ('sqrt', 'sin', 'cos', 'tan', 'acos', 'asin', 'atan', 'exp', 'log', 'log2', 'exp2', 'floor'):
             ns[fn] = (lambda fn: (lambda x: _UFS.app(fn, ns['R'](x))))(fn)
         for fn in ('atan2', 'pow'):
             ns[fn] = (lambda fn: (lambda x, y: _UFS.app(fn, ns['R'](x), ns['R'](y))))(fn)
@@ -96,7 +96,7 @@ def namespace(mode):
                 except Exception:
                     return Num(float('nan'))
             return g
-        for fn in ('sqrt', 'sin', 'cos', 'tan', 'acos', 'asin', 'atan', 'exp', 'log', 'log2', 'atan2', 'pow'):
+        for fn in ('sqrt', 'sin', 'cos', 'tan', 'acos', 'asin', 'atan', 'exp', 'log', 'log2', 'atan2', 'pow', 'floor'):
             ns[fn] = safe(getattr(math, fn))
         ns['exp2'] = safe(lambda x: 2.0 ** x)
         ns['absr'] = lambda x: Num(abs(float(x)))
